@@ -28,7 +28,10 @@ Definition decide (force : bool) (loadtime mtime : N) (cached_same : bool) : dec
 
 Inductive exec_result :=
 | ExecOk (h' : heap)
-| ExecFail (idx : nat) (h' : heap).
+(* the statement with index idx raised an exception of class exc - any class: Exception subclasses,
+   SystemExit, KeyboardInterrupt, GeneratorExit, user subclasses of BaseException.  The handler in
+   _xreload_module is a bare `except:`, so the class plays no role below. *)
+| ExecFail (idx : nat) (exc : N) (h' : heap).
 
 Inductive outcome := Done | Raise | NotModelled | NoFuel.
 
@@ -57,7 +60,7 @@ Variable nm : names.
         exec(code, new_mod.__dict__)
         result = livepatch(module, new_mod, module.__name__, assume_type=types.ModuleType)
         sys.modules[module.__name__] = result
-    except:
+    except:                      # bare: BaseException included
         <restore>; raise
     module.__loadtime__ = mtime                                                             *)
 Definition xreload (fuel : nat) (w : world) (name : key) (module scratch : addr)
@@ -65,7 +68,7 @@ Definition xreload (fuel : nat) (w : world) (name : key) (module scratch : addr)
   let saved := aget (wreg w) name in
   let reg1 := aset (wreg w) name scratch in
   match er with
-  | ExecFail _ h1 => (mkW h1 (restore reg1 name saved), Raise)
+  | ExecFail _ _ h1 => (mkW h1 (restore reg1 name saved), Raise)
   | ExecOk h1 =>
       match livepatch_module name (scratch_dict h1 scratch) bases_ok nm fuel h1 module scratch with
       | Ok s r =>
